@@ -169,11 +169,11 @@ Qed.
 (* ------------------------------------------------------------------ trajectories *)
 Section TrajFacts.
   Variable routers : N -> router.
-  Variable host_ip : N -> N.
+  Variable accepts : N -> N -> bool.
   Variable topo : N -> N -> N -> option node.
 
-  Notation traj := (traj routers host_ip topo).
-  Notation trajectory := (trajectory routers host_ip topo).
+  Notation traj := (traj routers accepts topo).
+  Notation trajectory := (trajectory routers accepts topo).
 
   (* unfolding of one router step that forwards *)
   Lemma traj_router_inv f r p l e :
@@ -200,7 +200,7 @@ Section TrajFacts.
   Qed.
 
   Lemma traj_host f h p : traj (S f) (NHost h) p =
-    if host_ip h =? p_dst p then ([], EDelivered h) else ([], EHostDrop h).
+    if accepts h (p_dst p) then ([], EDelivered h) else ([], EHostDrop h).
   Proof. reflexivity. Qed.
 
   (* TTL is a measure: the number of forwarded frames is below the TTL at the start *)
@@ -215,7 +215,7 @@ Section TrajFacts.
         * cbn. lia.
         * apply route_step_forward in ER. destruct ER as (T & -> & _).
           apply IH in EJ. cbn [p_ttl set_ttl] in EJ. cbn [length]. lia.
-      + rewrite traj_host in H. destruct (host_ip h =? p_dst p); inversion H; cbn; lia.
+      + rewrite traj_host in H. destruct (accepts h (p_dst p)); inversion H; cbn; lia.
   Qed.
 
   (* each hop decrements by one: the k-th forwarded frame carries TTL - (k+1) *)
@@ -233,7 +233,7 @@ Section TrajFacts.
           -- cbn in Hk. inversion Hk; subst. cbn [ho_pkt p_ttl set_ttl]. lia.
           -- cbn [nth_error] in Hk. pose proof (IH _ _ _ _ EJ k h Hk) as X.
              cbn [p_ttl set_ttl] in X. lia.
-      + rewrite traj_host in H. destruct (host_ip hh =? p_dst p); inversion H; subst;
+      + rewrite traj_host in H. destruct (accepts hh (p_dst p)); inversion H; subst;
           destruct k; discriminate.
   Qed.
 
@@ -250,7 +250,7 @@ Section TrajFacts.
           destruct Hin as [<- | Hin].
           -- cbn [ho_pkt p_ttl set_ttl]. lia.
           -- exact (IH _ _ _ _ EJ h Hin).
-      + rewrite traj_host in H. destruct (host_ip hh =? p_dst p); inversion H; subst;
+      + rewrite traj_host in H. destruct (accepts hh (p_dst p)); inversion H; subst;
           destruct Hin.
   Qed.
 
@@ -268,7 +268,7 @@ Section TrajFacts.
           destruct Hin as [<- | Hin].
           -- cbn [ho_pkt]. apply same_but_ttl_set.
           -- eapply same_but_ttl_trans; [apply same_but_ttl_set | exact (IH _ _ _ _ EJ h Hin)].
-      + rewrite traj_host in H. destruct (host_ip hh =? p_dst p); inversion H; subst;
+      + rewrite traj_host in H. destruct (accepts hh (p_dst p)); inversion H; subst;
           destruct Hin.
   Qed.
 
@@ -293,7 +293,7 @@ Section TrajFacts.
       + inversion H0. discriminate.
       + inversion H0. discriminate.
       + exfalso. exact (route_step_no_fuel _ _ ER).
-    - rewrite traj_host in H. destruct (host_ip hh =? p_dst p); inversion H; discriminate.
+    - rewrite traj_host in H. destruct (accepts hh (p_dst p)); inversion H; discriminate.
   Qed.
 
   (* ---------------- the path is the one the tables define *)
@@ -336,7 +336,7 @@ Section TrajFacts.
           -- cbn [chain ho_router ho_to]. split; [reflexivity | exact C].
           -- constructor; [| exact F].
              exists gw. cbn [ho_router ho_slot ho_nh ho_to]. repeat split; assumption.
-      + rewrite traj_host in H. destruct (host_ip hh =? p_dst p); inversion H;
+      + rewrite traj_host in H. destruct (accepts hh (p_dst p)); inversion H;
           (split; [exact I | constructor]).
   Qed.
 
@@ -345,8 +345,8 @@ Section TrajFacts.
 
   Definition ending_ok (start : node) (p : pkt) (l : list hopobs) (e : ending) : Prop :=
     match e with
-    | EDelivered h => last_node start l = NHost h /\ host_ip h = p_dst p
-    | EHostDrop h => last_node start l = NHost h /\ host_ip h <> p_dst p
+    | EDelivered h => last_node start l = NHost h /\ accepts h (p_dst p) = true
+    | EHostDrop h => last_node start l = NHost h /\ accepts h (p_dst p) = false
     | ETtl r => last_node start l = NRouter r /\ ttl_at_end p l = 1
     | ENoRoute r => last_node start l = NRouter r /\ 2 <= ttl_at_end p l /\
                     get_recipient (r_table (routers r)) (p_dst p) = None
@@ -390,9 +390,9 @@ Section TrajFacts.
           split; [reflexivity |]. split; [unfold ttl_at_end; cbn; lia | exact G].
         * inversion H0; subst. reflexivity.
         * inversion H0; subst. exact I.
-      + rewrite traj_host in H. destruct (host_ip hh =? p_dst p) eqn:E; inversion H; subst; cbn.
-        * split; [reflexivity | lia].
-        * split; [reflexivity | lia].
+      + rewrite traj_host in H. destruct (accepts hh (p_dst p)) eqn:E; inversion H; subst; cbn.
+        * split; [reflexivity | exact E].
+        * split; [reflexivity | exact E].
   Qed.
 
   (* ---------------- statements about [trajectory] *)
@@ -460,11 +460,11 @@ Section TrajFacts.
 
   (* delivered to the owner of the destination address and to nobody else *)
   Lemma only_destination start p l e : trajectory start p = (l, e) ->
-    forall h, e = EDelivered h -> host_ip h = p_dst p /\ last_node start l = NHost h.
+    forall h, e = EDelivered h -> accepts h (p_dst p) = true /\ last_node start l = NHost h.
   Proof.
     unfold Router.trajectory. intros H h ->.
     assert (X : forall f at_ q l', traj f at_ q = (l', EDelivered h) ->
-                host_ip h = p_dst q /\ last_node at_ l' = NHost h).
+                accepts h (p_dst q) = true /\ last_node at_ l' = NHost h).
     { induction f as [| f IH]; intros at_ q l' HJ.
       - cbn in HJ. inversion HJ.
       - destruct at_ as [r | hh].
@@ -475,8 +475,8 @@ Section TrajFacts.
           apply route_step_forward in ER. destruct ER as (_ & -> & _).
           destruct (IH _ _ _ EJ) as [A B]. cbn [p_dst set_ttl] in A.
           split; [exact A |]. rewrite last_node_cons. exact B.
-        + rewrite traj_host in HJ. destruct (host_ip hh =? p_dst q) eqn:E; inversion HJ; subst.
-          split; [lia | reflexivity]. }
+        + rewrite traj_host in HJ. destruct (accepts hh (p_dst q)) eqn:E; inversion HJ; subst.
+          split; [exact E | reflexivity]. }
     exact (X _ _ _ _ H).
   Qed.
 
@@ -485,7 +485,7 @@ Section TrajFacts.
      router on the way (P) forwards the datagram, whatever its remaining TTL >= 2, without
      failing, either to hd or to a router on the way of smaller rank *)
   Definition ranked (p0 : pkt) (hd : N) (P : N -> Prop) (rank : N -> nat) : Prop :=
-    host_ip hd = p_dst p0 /\
+    accepts hd (p_dst p0) = true /\
     forall r p, P r -> same_but_ttl p0 p -> 2 <= p_ttl p ->
       exists slot nh n',
         route_step (routers r) p = Ok (AForward slot nh (set_ttl p (p_ttl p - 1))) /\
@@ -508,7 +508,7 @@ Section TrajFacts.
     - exists [mkHop r slot nh (NHost hd) (set_ttl p (p_ttl p - 1))].
       cbn [Router.traj]. rewrite ER, ET, ES.
       destruct f as [| f']; [lia |]. rewrite traj_host.
-      destruct Hs' as (_ & D & _). rewrite D, Hip, N.eqb_refl.
+      destruct Hs' as (_ & D & _). rewrite D, Hip.
       split; [reflexivity | cbn; lia].
     - destruct (IH r' (set_ttl p (p_ttl p - 1)) Pr' Hs') as (l & HJ & HL).
       + cbn [p_ttl set_ttl]. lia.
@@ -611,11 +611,11 @@ Definition dgram_property (c : cfg) (d : dgram) (fs : list frame) (xs : list rx)
         f_to f0 = Some n0 /\ rest = map (hop_frame c) hs /\
         chain n0 hs /\
         Forall (hop_ok (cfg_router c) (cfg_topo c) (d_dst d)) hs /\
-        ending_ok (cfg_router c) (cfg_host_ip c) (cfg_topo c) n0 p0 hs e /\
+        ending_ok (cfg_router c) (cfg_accepts c) (cfg_topo c) n0 p0 hs e /\
         (* delivered to the destination host's application and to nobody else *)
         match xs with
         | [] => forall h, e <> EDelivered h
-        | [x] => e = EDelivered (x_host x) /\ cfg_host_ip c (x_host x) = d_dst d /\
+        | [x] => e = EDelivered (x_host x) /\ cfg_accepts c (x_host x) (d_dst d) = true /\
                  x_src x = p_src p0 /\ x_dst x = d_dst d /\ x_data x = d_data d
         | _ => False
         end
@@ -672,7 +672,7 @@ Proof.
   - destruct xs as [| x [| x' xs']]; try discriminate.
     apply rx_eqb_eq in HE. subst x. cbn [x_host x_src x_dst x_data].
     destruct (only_destination _ _ _ _ _ _ _ ET j eq_refl) as [A _].
-    split; [reflexivity |]. split; [unfold cfg_host_ip in *; lia |].
+    split; [reflexivity |]. split; [rewrite <- X2; exact A |].
     split; [reflexivity |]. split; [exact X2 | exact X].
   - destruct xs; [| discriminate]. intros h. discriminate.
   - destruct xs; [| discriminate]. intros h. discriminate.
@@ -716,10 +716,10 @@ Qed.
 (* ------------------------------------------------------------------ remarks and examples *)
 
 (* a forged TTL 0 reaching a router is a dev-profile underflow (arp_router.rs:84) *)
-Lemma remark_ttl0_panics r p routers host_ip topo :
+Lemma remark_ttl0_panics r p routers accepts topo :
   p_ttl p = 0 ->
   route_step (routers r) p = Panic site_ttl_sub /\
-  trajectory routers host_ip topo (NRouter r) p = ([], EPanic r site_ttl_sub).
+  trajectory routers accepts topo (NRouter r) p = ([], EPanic r site_ttl_sub).
 Proof.
   intros T. split; [apply route_step_ttl0; exact T |].
   unfold trajectory. rewrite T. cbn. rewrite route_step_ttl0 by exact T. reflexivity.
@@ -746,7 +746,7 @@ Definition ex_line (mtu1 : N) : cfg :=
       mkRcfg [ (mkNet 167772160 m24, (Some 167772417, 0)); (mkNet 167772416 m24, (None, 0));
                (mkNet 167772672 m24, (None, 1)) ]
              [167772418; 167772673] [1; 2] ]
-    [ mkHcfg 0 167772170 m24 167772161; mkHcfg 2 167772682 m24 167772673 ].
+    [ mkHcfg 0 167772170 m24 167772161 false; mkHcfg 2 167772682 m24 167772673 false ].
 
 (* the same with R1 sending 10.0.2.0/24 back to R0: a routing loop *)
 Definition ex_loop : cfg :=
@@ -757,7 +757,7 @@ Definition ex_loop : cfg :=
       mkRcfg [ (mkNet 167772160 m24, (Some 167772417, 0)); (mkNet 167772416 m24, (None, 0));
                (mkNet 167772672 m24, (Some 167772417, 0)) ]
              [167772418; 167772673] [1; 2] ]
-    [ mkHcfg 0 167772170 m24 167772161; mkHcfg 2 167772682 m24 167772673 ].
+    [ mkHcfg 0 167772170 m24 167772161 false; mkHcfg 2 167772682 m24 167772673 false ].
 
 Lemma ex_line_delivers :
   cfg_trajectory (ex_line 65535) (NRouter 0) (ex_pkt 30 18) =
@@ -787,7 +787,7 @@ Proof. vm_compute. split; reflexivity. Qed.
 
 (* the hypotheses of [delivered] are satisfiable: the line above, towards H1 *)
 Lemma ex_ranked :
-  ranked (cfg_router (ex_line 65535)) (cfg_host_ip (ex_line 65535)) (cfg_topo (ex_line 65535))
+  ranked (cfg_router (ex_line 65535)) (cfg_accepts (ex_line 65535)) (cfg_topo (ex_line 65535))
          (ex_pkt 30 18) 1 (fun r => r = 0 \/ r = 1) (fun r => if r =? 0 then 1%nat else 0%nat).
 Proof.
   split; [reflexivity |].
@@ -835,3 +835,10 @@ Lemma ex_validate_accepts :
   validate (ex_line 65535) [ex_dgram] (ex_trace ++ [(0, mkFrame 2 (NRouter 1) (Some (NHost 1)) (ex_pkt 28 18))])
            [(0, mkRx 1 167772170 167772682 (repeat 0 10))] = false.
 Proof. vm_compute. split; reflexivity. Qed.
+
+(* a host whose application listens on its own address accepts only that address *)
+Lemma cfg_accepts_own c h dst : hc_wild (cfg_hc c h) = false ->
+  cfg_accepts c h dst = true -> cfg_host_ip c h = dst.
+Proof.
+  unfold cfg_accepts, cfg_host_ip. intros -> H. cbn in H. apply N.eqb_eq in H. exact H.
+Qed.
